@@ -191,9 +191,9 @@ theorem replays_afterChange (db : DB) (k : Key) : Replays (afterChange db k) db 
     · exact (replays_sync _).trans h
     · exact h
 
-theorem replays_browseStep (all : Bool) (w : List (Key × Nat))
+theorem replays_browseStep (all : Bool) (w : List (Key × Nat)) (vs : Option (List Key))
     (st : DB × List (Key × Rec) × List (Key × Bytes)) (kr : Key × Rec) :
-    Replays (browseStep all w st kr).1 st.1 := by
+    Replays (browseStep all w vs st kr).1 st.1 := by
   obtain ⟨d, a, o⟩ := st
   unfold browseStep
   dsimp only
@@ -206,16 +206,17 @@ theorem replays_browseStep (all : Bool) (w : List (Key × Nat))
       · exact Replays.refl _
 
 theorem replays_browseGen (all : Bool) (db : DB) (w : List (Key × Nat)) : Replays (browseGen all db w).1 db := by
-  have hf : ∀ (l : List (Key × Rec)) (st : DB × List (Key × Rec) × List (Key × Bytes)),
-      Replays (l.foldl (browseStep all w) st).1 st.1 := by
+  have hf : ∀ (vs : Option (List Key)) (l : List (Key × Rec)) (st : DB × List (Key × Rec) × List (Key × Bytes)),
+      Replays (l.foldl (browseStep all w vs) st).1 st.1 := by
+    intro vs
     intro l
     induction l with
     | nil => intro st; exact Replays.refl _
-    | cons kr t ih => intro st; exact (ih _).trans (replays_browseStep all w st kr)
+    | cons kr t ih => intro st; exact (ih _).trans (replays_browseStep all w vs st kr)
   unfold browseGen
   split
   · exact Replays.refl _
-  · have := hf db.index (db, [], [])
+  · have := hf (visitSet Rec.flags all db.index w) db.index (db, [], [])
     dsimp only
     split
     · exact this
